@@ -12,7 +12,7 @@ from ..effects import callee
 from ..flow import Flow
 from .. import preds
 from ..preds import Scope, canon
-from .common import facts_for, optimizer_classes, strip_copy
+from .common import facts_for, optimizer_classes, strip_copy, is_void_waypoints_cost
 
 
 def run(chk):
@@ -275,6 +275,6 @@ def check_forward(chk, F, cls, f, primary):
         ok = c.get("k") == "call" and callee(c).get("fid") in {g["fid"] for g in primary}
         if ok:
             a = [canon(x, sc) for x in c["args"]]
-            ok = a[0] == "$p0" and a[1] == "$p1" and a[3] == "$p2" and a[4:] == ["$p3", "$p4", "$p5"] and "VoidWaypointsCost" in a[2]
+            ok = a[0] == "$p0" and a[1] == "$p1" and a[3] == "$p2" and a[4:] == ["$p3", "$p4", "$p5"] and is_void_waypoints_cost(F, c["args"][2])
             det = str(a)
     chk.ob("C19-R4", "%s two-cost checkGradients forwards x, both functors, workspace, eps and tol with a void waypoint cost" % cls, ok, loc(f), det, construct=cls + "/checkGradients/forward")
